@@ -41,18 +41,84 @@ seq_prop("C17", ["single", "ext"], ["single", "ext"],
          "programs with 35-45% read operations on existing and on missing resources; after every read the resource is re-read independently and must be byte-for-byte what it was (content and existence)")
 
 
+BUF_FAMS = [1, 2, 4, 5]
+BUF_ASSUME = [
+    "the executable Lean model of the buffer state machine (SC/Buffer.lean) is tied to the code by differential correspondence on generated programs, not by proof",
+    "conflict detection is by (st_size, st_mtime_ns): an outside write that preserves both is invisible to the code and to the model alike; the harness's outside writer bumps mtime explicitly",
+    "json.dumps length is modelled for the value alphabet the generator emits (float repr lengths are supplied by the harness)",
+    "JSON files only (the buffered classes exist for the JSON backend only)",
+]
+
+
+def buf_prop(pid, corr_profiles, twin_profiles, rule, c07=False, extra_assume=(), quick=(60, 40), thorough=(900, 600), steps=30,
+             seq=None):
+    suites = [dict(unit="unit_buf_corr", profiles=corr_profiles, nq=quick[0], nt=thorough[0], steps=steps, fams=BUF_FAMS),
+              dict(unit="unit_buf_twin", profiles=twin_profiles, nq=quick[1], nt=thorough[1], steps=steps, fams=BUF_FAMS)]
+    if c07:
+        suites.append(dict(unit="unit_c07_scenarios", special="c07"))
+        suites.append(dict(unit="unit_buf_conflict", profiles=["conflict"], nq=120, nt=1500, steps=steps, fams=BUF_FAMS))
+    if seq:
+        suites += seq
+    PROPS[pid] = dict(suites=suites, rule=rule, assumptions=BUF_ASSUME + list(extra_assume))
+
+
+buf_prop("C05", ["basic", "caps", "joint"], ["basic", "caps", "joint"],
+         "programs of dict/list operations (every mutator and read, child handles) interleaved with well-nested enter/exit of obj.buffered and Class.buffer_backend(cap) to depth 4 on the four buffered families x {dict, list}; correspondence with the Lean buffer machine (result, disk content, size, capacity, buffered files after every step) and a twin oracle executing the same program on the unbuffered class; distinct = distinct (op-name sequence, context structure)")
+buf_prop("C06", ["joint", "basic"], ["joint", "jointcaps"],
+         "programs with two objects per file that enter and leave their buffered contexts together (or share backend-wide contexts), reads and writes assigned to the objects at random, flush order fixed by first-touch order; twin oracle: every result equals the unbuffered execution, the file after the common exit equals the unbuffered file")
+buf_prop("C07", ["conflict", "caps"], ["basic"], c07=True,
+         rule="exhaustive scenarios over 1-2 files (quick) / 1-3 files (thorough): each file gets a role in {modified, read-only, untouched} x an outside write {before first buffered access, after it, never}, every first-touch order, both context kinds, dict and list, both strategies; plus generated programs with outside writes during buffered contexts in correspondence with the Lean machine (which models metadata stamps)")
+buf_prop("C15", ["caps", "basic", "conflict"], ["caps", "jointcaps", "basic"],
+         "programs with capacity changes (set_buffer_capacity, buffer_backend(cap), capacities from 0 / smaller than one document to large) over 1-3 files; after every step the reported size and capacity are compared with the Lean machine and, independently, with the encoded length of the twin's files (serialized) / bounds from the files that differ from disk (shared memory)")
+
+
+def _c07_tasks(tier, seed):
+    out = []
+    for fam in BUF_FAMS:
+        for is_dict in (True, False):
+            for ctx_kind in ("class", "object"):
+                out.append(("unit_c07_scenarios", (fam, is_dict, ctx_kind, 1, 0, 1, seed)))
+                parts = 8
+                picks = range(parts) if tier == "thorough" else [seed % parts, (seed + 3) % parts]
+                for part in picks:
+                    out.append(("unit_c07_scenarios", (fam, is_dict, ctx_kind, 2, part, parts, seed)))
+                if tier == "thorough":
+                    parts3 = 24
+                    for part in range(parts3):
+                        if (part + seed) % 3 == 0:
+                            out.append(("unit_c07_scenarios", (fam, is_dict, ctx_kind, 3, part, parts3, seed)))
+    return out
+
+
+PROPS["C17"]["suites"] += [
+    dict(unit="unit_buf_corr", profiles=["readonly"], nq=40, nt=600, steps=30, fams=BUF_FAMS),
+    dict(unit="unit_buf_twin", profiles=["readonly", "basic"], nq=30, nt=400, steps=30, fams=BUF_FAMS)]
+PROPS["C17"]["assumptions"] = PROPS["C17"]["assumptions"] + BUF_ASSUME[:2]
+
+
 def tasks(prop, tier, seed, oracle_only=False):
     conf = PROPS[prop]
     out = []
-    for unit, profiles, nq, nt, steps in conf["suites"]:
-        if oracle_only and "corr" in unit:
+    for su in conf["suites"]:
+        if isinstance(su, tuple):
+            su = dict(unit=su[0], profiles=su[1], nq=su[2], nt=su[3], steps=su[4], fams=range(N_FAM))
+        if oracle_only and "corr" in su["unit"]:
             continue
-        n = nq if tier == "quick" else nt
-        for fam in range(N_FAM):
-            for profile in profiles:
+        if su.get("special") == "c07":
+            out += _c07_tasks(tier, seed)
+            continue
+        if su.get("special"):
+            out += SPECIAL[su["special"]](tier, seed)
+            continue
+        n = su["nq"] if tier == "quick" else su["nt"]
+        for fam in su["fams"]:
+            for profile in su["profiles"]:
                 for i in range(n):
-                    out.append((unit, (fam, seed * 100003 + i, profile, steps)))
+                    out.append((su["unit"], (fam, seed * 100003 + i, profile, su["steps"])))
     return out
+
+
+SPECIAL = {}
 
 
 def aggregate(prop, results):
@@ -79,7 +145,7 @@ def aggregate(prop, results):
             shapes.add(json.dumps(sorted(r.get("hist", {}).items())) + str(r.get("steps")))
             if r.get("diff"):
                 d = r["diff"]
-                agg["diffs"].append(dict(suite="unit_seq_corr/" + r["profile"], fam=r["fam"], seed=r["seed"],
+                agg["diffs"].append(dict(suite=r.get("suite", "unit_seq_corr") + "/" + r["profile"], fam=r["fam"], seed=r["seed"],
                                          line=d["line"], real=d["real"], model=d["model"], ops=d["ops"]))
             if r.get("sample") and len(agg["samples"]) < 6:
                 agg["samples"].append(dict(kind="correspondence", family=r["fam"], profile=r["profile"],
@@ -90,7 +156,7 @@ def aggregate(prop, results):
             for v in r.get("violations", []):
                 if prop in v["props"]:
                     v = dict(v)
-                    v["kind"] = "shadow"
+                    v.setdefault("kind", "shadow")
                     agg["violations"].append(v)
     agg["distinct"] = len(shapes)
     agg["distribution"] = dict(op_histogram=dict(hist), error_results=errs, oracle_stats=dict(stats),
@@ -140,7 +206,7 @@ def replay(prop, path):
         return 1
     ns = env.load()
     fam = [f for f in ns.families if f.short == payload["family"]][0]
-    ops = eval(payload["ops"], {"Other": Other, "MISSING": MISSING, "slice": slice})
+    ops = eval(payload["ops"], {"Other": Other, "MISSING": MISSING, "slice": slice}) if payload.get("ops") else None
     if payload.get("kind") == "shadow":
         sh, _ = suites.run_shadow(ns, fam, ops)
         bad = [v for v in sh.violations if prop in v[0]]
@@ -150,5 +216,44 @@ def replay(prop, path):
         if not bad:
             print("replay: no violation of %s on the current tree" % prop)
         return 1 if bad else 0
+    if payload.get("kind") == "twin":
+        import boracles
+        ex = payload.get("extra") or {}
+        viol, _, _ = boracles.run_twin(ns, fam, ops, ex.get("seed", 0), ex.get("profile", "basic"))
+        bad = [v for v in viol if prop in v[0]]
+        for v in bad:
+            print("VIOLATION property=%s replay=%s" % (prop, path))
+            print("  " + v[1][:600])
+        if not bad:
+            print("replay: no violation of %s on the current tree" % prop)
+        return 1 if bad else 0
+    if payload.get("kind") == "conflict":
+        import boracles
+        viol, _, _ = boracles.run_conflict(ns, fam, ops, (payload.get("extra") or {}).get("seed", 0))
+        bad = [v for v in viol if prop in v[0]]
+        for v in bad:
+            print("VIOLATION property=%s replay=%s" % (prop, path))
+            print("  " + v[1][:600])
+        if not bad:
+            print("replay: no violation of %s on the current tree" % prop)
+        return 1 if bad else 0
+    if payload.get("kind") == "c07":
+        import boracles
+        ex = payload["extra"]
+        viol = boracles.run_c07(ns, fam, ex["is_dict"], ex["ctx_kind"], [tuple(a) for a in ex["assignment"]],
+                                tuple(ex["order"]), None)
+        bad = [v for v in viol if prop in v[0]]
+        for v in bad:
+            print("VIOLATION property=%s replay=%s" % (prop, path))
+            print("  " + v[1][:600])
+        if not bad:
+            print("replay: no violation of %s on the current tree" % prop)
+        return 1 if bad else 0
+    handler = REPLAYERS.get(payload.get("kind"))
+    if handler:
+        return handler(prop, path, payload, ns)
     print("replay: unknown replay kind", payload.get("kind"))
     return 2
+
+
+REPLAYERS = {}
